@@ -21,10 +21,11 @@ const (
 	FailIndexCond // index out of range inside an if condition: reaches the rule-level recover with a non-error panic value
 	FailNonBool   // non-boolean if condition: rule-level recover, error-typed panic value
 	FailPanicBig  // injected function panicking with a multi-megabyte message: slow error construction
+	FailFirstOnly // injected function that panics on its first invocation per call only (DAG: a rule named twice in a layer)
 	nFailKinds
 )
 
-var failNames = []string{"none", "div0", "int+string", "missing-var", "cmp-type", "panic-fn", "missing-fn", "read-foreign-local", "custom", "index-in-condition", "non-bool-condition", "panic-big-message"}
+var failNames = []string{"none", "div0", "int+string", "missing-var", "cmp-type", "panic-fn", "missing-fn", "read-foreign-local", "custom", "index-in-condition", "non-bool-condition", "panic-big-message", "panic-first-invocation-only"}
 
 const (
 	RetNone = iota
@@ -330,6 +331,8 @@ func failStmt(kind, id int) string {
 		return fmt.Sprintf("if fl(%d) { zz = 1 }", id)
 	case FailPanicBig:
 		return fmt.Sprintf("pnb(%d)", id)
+	case FailFirstOnly:
+		return fmt.Sprintf("pn1(%d)", id)
 	}
 	return ""
 }
